@@ -1080,6 +1080,17 @@ class Calendar(MutableTimeline[Event]):
         if not events_list:
             return []
 
+        # A failure while the batch is being built (not only while it executes)
+        # is reported for every event instead of escaping as an exception
+        try:
+            return self._add_many_batch(events_list)
+        except Exception as e:
+            return [
+                WriteResult(success=False, event=None, error=e) for _ in events_list
+            ]
+
+    def _add_many_batch(self, events_list: list[Interval]) -> list[WriteResult]:
+        """Build and execute the batch request of _add_many."""
         # Prepare results storage (indexed by request_id)
         results: dict[str, WriteResult] = {}
         prepared_data: dict[str, _PreparedEvent] = {}
